@@ -289,4 +289,41 @@ pub fn check_c13_iter(buf: &[u8], count: u8, start: u8, little: bool, defs: bool
     Ok(())
 }
 
+/// C13: get_requirement on a table with ONE VerNeed record at offset 0 whose single auxiliary record sits at offset 16
+/// (inputs with another layout are not judged): Some iff vna_other == versym[i] & 0x7fff, then file / name / hash / flags
+/// come from that record and `hidden` is bit 15 of versym[i]; symbol indexes beyond the versym table never give a record
+pub fn check_c13_req(versym: &[u8; 4], need: &[u8; 32], strs: &[u8; 6], sym_idx: u8, little: bool) -> Result<(), String> {
+    use elf::gnu_symver::{SymbolVersionTable, VerNeedIterator, VersionIndexTable};
+    let e = if little { AnyEndian::Little } else { AnyEndian::Big };
+    let u16a = |b: &[u8], o: usize| uval(little, &b[o..o + 2]);
+    let u32a = |b: &[u8], o: usize| uval(little, &b[o..o + 4]);
+    // Elf64_Verneed: vn_version u16, vn_cnt u16, vn_file u32, vn_aux u32, vn_next u32
+    if !(u16a(need, 0) == 1 && u16a(need, 2) == 1 && u32a(need, 8) == 16 && u32a(need, 12) == 0) { return Ok(()); }
+    let ids = VersionIndexTable::new(e, Class::ELF64, versym);
+    let t = SymbolVersionTable::new(ids, Some((VerNeedIterator::new(e, Class::ELF64, 1, 0, need), elf::string_table::StringTable::new(strs))), None);
+    let r = t.get_requirement(sym_idx as usize);
+    if sym_idx >= 2 { if matches!(r, Ok(Some(_))) { fail!("get_requirement({}) gives a record although the versym table has 2 entries", sym_idx); } return Ok(()); }
+    let v = u16a(versym, 2 * sym_idx as usize); let idx = v & 0x7fff; let hidden = v & 0x8000 != 0;
+    // Elf64_Vernaux at 16: vna_hash u32, vna_flags u16, vna_other u16, vna_name u32, vna_next u32
+    let (hash, flags, other, name_off) = (u32a(need, 16), u16a(need, 20), u16a(need, 22), u32a(need, 24));
+    let strz = |off: u64| -> Option<&[u8]> { let o = off as usize; if o >= strs.len() { return None; } strs[o..].iter().position(|&b| b == 0).map(|k| &strs[o..o + k]) };
+    if other != idx {
+        if !matches!(r, Ok(None)) { fail!("get_requirement({}): versym {:#x} matches no auxiliary record (vna_other {}), expected None", sym_idx, v, other); }
+        return Ok(());
+    }
+    let file = strz(u32a(need, 4)).and_then(|b| core::str::from_utf8(b).ok());
+    let name = strz(name_off).and_then(|b| core::str::from_utf8(b).ok());
+    match (r, file, name) {
+        (Ok(Some(q)), Some(f), Some(n)) => {
+            if q.file != f || q.name != n || q.hash as u64 != hash || q.flags as u64 != flags { fail!("get_requirement({}): file/name/hash/flags differ from the matching auxiliary record", sym_idx); }
+            if q.hidden != hidden { fail!("get_requirement({}): hidden == {} but bit 15 of versym {:#x} is {}", sym_idx, q.hidden, v, hidden); }
+        }
+        (Ok(Some(_)), _, _) => fail!("get_requirement({}) is Some although a string of the record is unreadable", sym_idx),
+        (Ok(None), Some(_), Some(_)) => fail!("get_requirement({}): versym {:#x} & 0x7fff == vna_other {} but no requirement was returned", sym_idx, v, other),
+        (Err(_), Some(_), Some(_)) => fail!("get_requirement({}) is Err although the matching record and its strings are readable", sym_idx),
+        _ => {}
+    }
+    Ok(())
+}
+
 include!("layout_oracle.rs");
